@@ -10,23 +10,29 @@ from .. import common, t1check
 MANIFEST = {
     "text": "Lean 4 theorems over the real numbers about a model of karhunenLoeve.py (radial grid, azimuthal-Fourier kernel, piston "
             "filter, per-order eigen-decompositions as contract parameters, scaling, selection/sorting/pairing, azimuthal tables, "
-            "polar synthesis, annulus mask): piston_orth is orthogonal for every nr, order-0 modes have zero mean, the polar Gram "
+            "polar synthesis, annulus mask, order-1 rendering on the table closed in azimuth): piston_orth is orthogonal for every "
+            "nr, order-0 modes have zero mean, the polar Gram "
             "matrix is the identity, returned variances are non-increasing with equal cos/sin pairs, -1/2 x double pupil average "
-            "of K_i D K_j = diag(variances) for npp = nth and ALL azimuthal orders, the piston-filtered order 0 included (any "
-            "structure function), distinct positions of the returned basis are distinct (order, radial index) pairs, hence the "
+            "of K_i D K_j = diag(variances) for npp = nth = 5 nr (NOT the npp = int(2 pi nr) of make_kl, where it holds only up to a "
+            "quadrature difference the oracle bounds loosely) and ALL azimuthal orders, the piston-filtered order 0 included (any "
+            "structure function; the code's is 6.8839 r^(5/3): stf_is_kolmogorov), distinct positions of the returned basis are "
+            "distinct (order, radial index) pairs, hence the "
             "basis as returned (positions of oind) is orthonormal and diagonalises; the first two functions are one cos/sin pair "
-            "of equal variance whenever the largest eigenvalue is of order >= 1 (R(r) sin/cos theta when of order 1); pupil = annulus "
-            "indicator, masked rendering vanishes outside; for all nr, ri, nfunc and every eigh/argsort output meeting the "
+            "of equal variance whenever the largest eigenvalue is of order >= 1 (R(r) sin/cos theta when of order 1); the returned "
+            "functions are the largest of the computed orders and the stop rule's count is what the loop establishes; pupil = annulus "
+            "indicator, masked rendering vanishes outside, the rendering of a separable polar function factorises and interpolates "
+            "across phi = 0 (repaired code); for all nr, ri, nfunc and every eigh/argsort output meeting the "
             "stated contract. The constants d, fnorm, fktom and the "
             "structure function are regenerated from the source each run (translator T1); the model is executed at binary64 "
-            "against the real code with the eigenpairs the real eigh returned; a direct oracle on the real code supplies "
-            "failing inputs.",
+            "against the real code with the eigenpairs the real eigh returned; a direct oracle on the real code, with its own "
+            "Kolmogorov structure function, kernel and spectrum, supplies failing inputs.",
     "note": "Trusted: Lean kernel + propext/Classical.choice/Quot.sound; Mathlib's Real.sqrt/cos/sin/pi; numpy.linalg.eigh, "
             "numpy.argsort, numpy.fft.fft and scipy map_coordinates are contract parameters (eigh/argsort contracts re-checked "
-            "numerically on every instance run). Not proved: positivity of the selected eigenvalues (which is what keeps the "
+            "numerically on every instance run; order-1 map_coordinates against the model's bilinear formula at sampled pixels). "
+            "Not proved: positivity of the selected eigenvalues (which is what keeps the "
             "piston entry out of the selection) and that the largest eigenvalue is of order 1 (facts "
-            "about the Kolmogorov spectrum), accuracy of the polar->Cartesian resampling, the order-count loop's adequacy "
-            "(all evaluated by the oracle only).",
+            "about the Kolmogorov spectrum), accuracy of the polar->Cartesian resampling, that no order after the loop's stop "
+            "holds a larger variance (asserted by the oracle on every case against an independent spectrum of all orders).",
     "technique": "Lean 4 proof over a hand-written model with translated constants + differential correspondence at binary64 "
                  "(glue replayed on the real eigenpairs) + oracle search on the real code",
 }
@@ -39,12 +45,36 @@ REQUIRED = ["pupil_is_annulus", "pupil_zero_or_one", "masked_zero_outside", "mas
             "Dent_symm", "quad_split", "azimuthal_block0", "azimuthal_block0'", "rdft_eq_kernel",
             "diagonalises_order0_same", "diagonalises_order0_cross", "diagonalises_order0", "diagonalises_all",
             "returned_basis_diagonalises", "returned_basis_orthonormal", "piston_not_selected_partial",
-            "returned_basis_zero_mean"]
+            "returned_basis_zero_mean",
+            # round 3
+            "stf_is_kolmogorov", "wrapCol_inside", "bilinear_separable", "wrap_closes_azimuth", "wrap_other_cells",
+            "cpCoord_range", "selected_are_largest", "stop_rule_count"]
 T1_NAMES = ["kl_radii_d", "kl_fnorm", "kl_fktom", "kl_stf_kolmogorov"]
 
-GRAM_TOL = 1e-9        # observed 3e-15 on the clean tree; every mutation considered moves it by >= 1e-3
-DIAG_TOL = 1e-8        # relative to the largest variance; observed 1e-15
 MAT_TOL = 1e-9         # eigh input matrices: FFT vs naive DFT, libm pow
+
+
+def _limit_blas_threads(n):
+    """Best effort, never changes a verdict: the oracle does thousands of small matrix products / eigen-decompositions; with
+    OpenBLAS's default of one spinning thread per core they run 100x slower on a busy machine (measured 42 s vs 0.17 s for
+    one double sum).  Looks up the OpenBLAS already loaded by numpy and asks it for `n` threads."""
+    try:
+        import ctypes
+        seen = set()
+        with open("/proc/self/maps") as fh:
+            for line in fh:
+                path = line.split()[-1]
+                if "openblas" in path and path not in seen:
+                    seen.add(path)
+                    lib = ctypes.CDLL(path)
+                    for name in ("scipy_openblas_set_num_threads64_", "scipy_openblas_set_num_threads", "openblas_set_num_threads64_",
+                                 "openblas_set_num_threads"):
+                        fn = getattr(lib, name, None)
+                        if fn is not None:
+                            fn(ctypes.c_int(n))
+                            break
+    except Exception:
+        pass
 
 
 def _quiet(fn, *a, **k):
@@ -82,7 +112,7 @@ class Spy:
         return False
 
 
-def gen_config(rng, nr_hi, what="polar"):
+def gen_config(rng, nr_hi, big=True):
     nr = rng.choice([2, 3, 4, 5]) if rng.random() < 0.25 else rng.randint(6, nr_hi)
     kind = rng.choice(["dyadic", "uniform", "small", "large"])
     if kind == "dyadic":
@@ -96,29 +126,105 @@ def gen_config(rng, nr_hi, what="polar"):
     nppk = rng.choice(["nth", "nth", "2pi", "other"])
     npp = {"nth": 5 * nr, "2pi": int(2 * math.pi * nr), "other": rng.randint(4 * nr, 8 * nr)}[nppk]
     # the code's own resolution criterion: nr*npp/nfunc >= 8
-    nf_hi = max(2, min(60, (nr * npp) // 8))
-    nfunc = rng.randint(2, nf_hi)
+    lim = max(2, (nr * npp) // 8)
+    u = rng.random()
+    if u < 0.06:
+        nfunc = 1
+    elif u < 0.2 and lim > 60 and big:
+        nfunc = rng.randint(61, min(lim, 400))
+    else:
+        nfunc = rng.randint(2, min(60, lim))
     return ri, nr, npp, nppk, nfunc
+
+
+# --------------------------------------------------------------------------- oracle-side reference
+# Nothing in this block is taken from the module under test except the radial grid the basis itself reports.
+def kolmogorov(r):
+    """the Kolmogorov phase structure function D(r) = 6.8839 (r/r0)^(5/3), r in units of r0 (oracle-side literal)"""
+    return 6.8839 * r ** (5.0 / 3.0)
+
+
+_SPEC = {}
+
+
+def ref_spectrum(ri, nr, rad):
+    """Variances of the Karhunen-Loeve functions of every azimuthal order below the Nyquist order of the construction's
+    azimuthal grid (nth = 5 nr), computed independently: L^p[a, a'] = -1/2 . 1/(2 pi (1-ri^2)) . (2 pi/nth) . sum_c D(half the
+    distance between ring points (a, 0) and (a', c)) cos(2 pi p c/nth) by an explicit cosine sum, times the ring area
+    (1-ri^2)/nr; order 0 restricted to the orthogonal complement of the constant (any orthonormal basis of it: QR)."""
+    rad = numpy.asarray(rad, dtype=float)
+    key = (float(ri), int(nr), rad.tobytes())
+    if key in _SPEC:
+        return _SPEC[key]
+    nth = 5 * nr
+    cs = numpy.cos(2 * numpy.pi * numpy.arange(nth) / nth)
+    d2 = (rad ** 2)[:, None, None] + (rad ** 2)[None, :, None] - 2 * rad[:, None, None] * rad[None, :, None] * cs[None, None, :]
+    D = kolmogorov(0.5 * numpy.sqrt(numpy.maximum(d2, 0.0)))
+    orders = numpy.arange((nth + 1) // 2)
+    C = numpy.cos(2 * numpy.pi * numpy.outer(numpy.arange(nth), orders) / nth)
+    L = (-0.5 / (2 * numpy.pi * (1 - ri ** 2))) * (2 * numpy.pi / nth) * (D @ C)
+    L = 0.5 * (L + L.transpose(1, 0, 2)) * ((1 - ri ** 2) / nr)
+    q, _ = numpy.linalg.qr(numpy.column_stack([numpy.ones(nr), numpy.eye(nr)[:, :nr - 1]]))
+    B = q[:, 1:]
+    spec = [numpy.linalg.eigvalsh(B.T @ L[:, :, 0] @ B)] + [numpy.linalg.eigvalsh(L[:, :, t]) for t in orders[1:]]
+    if len(_SPEC) > 64:
+        _SPEC.clear()
+    _SPEC[key] = spec
+    return spec
+
+
+def largest_variances(spec, nfunc):
+    """the nfunc largest variances, every order >= 1 counted twice (cos and sin)"""
+    allv = numpy.concatenate([spec[0]] + [numpy.repeat(e, 2) for e in spec[1:]])
+    return numpy.sort(allv)[::-1][:nfunc]
 
 
 def stopping_order(KL, ri, nr, nfunc):
     """Resolution limit of the construction: the first azimuthal order t, strictly below the Nyquist order nth/2 of the kernel's
     azimuthal grid (beyond it the kernel's Fourier coefficients repeat: L^p = L^(nth-p)), after which nfunc functions have a larger
     eigenvalue than every function of order t.  None: nfunc is beyond what (ri, nr) can resolve - outside the property's domain.
-    Computed here from the kernel alone, independently of gkl_fcom."""
-    kers = KL.gkl_kernel(ri, nr, KL.gkl_radii(ri, nr))
-    if not numpy.all(numpy.isfinite(kers)):
-        return -1            # nothing can be said from a non-finite kernel; the oracle reports it
-    nth = kers.shape[2]
-    fktom = (1.0 - ri ** 2) / nr
-    s = KL.piston_orth(nr)
-    evs = [numpy.append(numpy.linalg.eigvalsh(fktom * (s.T @ kers[:, :, 0] @ s)[:nr - 1, :nr - 1]), 0.0)]
-    for t in range(1, (nth + 1) // 2):
-        w = numpy.linalg.eigvalsh(fktom * kers[:, :, t])
-        evs.append(w)
-        if 2 * sum(int((e > w.max()).sum()) for e in evs) - int((evs[0] > w.max()).sum()) >= nfunc:
+    Computed from the oracle-side spectrum, independently of gkl_kernel / gkl_fcom."""
+    spec = ref_spectrum(ri, nr, KL.gkl_radii(ri, nr))
+    for t in range(1, len(spec)):
+        mx = spec[t].max()
+        if 2 * sum(int((e > mx).sum()) for e in spec[:t + 1]) - int((spec[0] > mx).sum()) >= nfunc:
             return t
     return None
+
+
+def quad_forms(F, rad, npp, block=1500000):
+    """-1/2 x the double pupil average of F_i(x) D(|x - x'|) F_j(x') over the polar grid (rad x npp equally spaced angles),
+    D the oracle-side Kolmogorov structure function of half the distance (the construction's length unit); row blocks keep
+    the N x N distance table out of memory"""
+    nf = F.shape[0]
+    Fm = F.reshape(nf, -1)
+    th = numpy.arange(npp) * 2 * numpy.pi / npp
+    X = (rad[:, None] * numpy.cos(th)[None]).ravel()
+    Y = (rad[:, None] * numpy.sin(th)[None]).ravel()
+    N = X.size
+    step = max(1, block // N)
+    DF = numpy.empty((N, nf))
+    for a in range(0, N, step):
+        dist = numpy.sqrt((X[a:a + step, None] - X[None]) ** 2 + (Y[a:a + step, None] - Y[None]) ** 2)
+        DF[a:a + step] = kolmogorov(0.5 * dist) @ Fm.T
+    return -0.5 * (Fm @ DF) / float(N) ** 2
+
+
+def quad_forms_rot(F, rad, npp):
+    """the same double sum as quad_forms, organised by the rotational symmetry of the polar grid: the distance between grid points
+    (a, b) and (a', b') depends on b' - b only, so the sum over (b, b') is a circular correlation (evaluated through numpy's
+    FFT): nr^2 npp structure-function values instead of (nr npp)^2.  Used for large grids; validated against quad_forms on the
+    small ones of every run (oracle self-check)"""
+    nf, nr, _ = F.shape
+    cs = numpy.cos(2 * numpy.pi * numpy.arange(npp) / npp)
+    d2 = (rad ** 2)[:, None, None] + (rad ** 2)[None, :, None] - 2 * rad[:, None, None] * rad[None, :, None] * cs[None, None, :]
+    # (k, a, a'); D is even in b' - b
+    FD = numpy.ascontiguousarray(numpy.fft.fft(kolmogorov(0.5 * numpy.sqrt(numpy.maximum(d2, 0.0))), axis=2).transpose(2, 0, 1))
+    FF = numpy.ascontiguousarray(numpy.fft.fft(F, axis=2).transpose(2, 0, 1))                # (k, i, a)
+    Q = numpy.zeros((nf, nf))
+    for k in range(npp):
+        Q += (FF[k].conj() @ FD[k] @ FF[k].T).real
+    return -0.5 * Q / npp / float(nr * npp) ** 2
 
 
 # --------------------------------------------------------------------------- correspondence
@@ -147,7 +253,7 @@ def correspondence(chk, KL, n_cases, nr_hi):
         return fn
 
     for it in range(n_cases):
-        ri, nr, npp, nppk, nfunc = gen_config(rng, nr_hi)
+        ri, nr, npp, nppk, nfunc = gen_config(rng, nr_hi, big=False)
         desc = {"ri": ri, "nr": nr, "npp": npp, "nfunc": nfunc}
         if stopping_order(KL, ri, nr, nfunc) in (None, -1):
             chk.count("corr:beyond-resolution-limit-or-not-finite")
@@ -160,6 +266,13 @@ def correspondence(chk, KL, n_cases, nr_hi):
             except Exception as ex:   # the oracle reports construction failures; nothing to compare here
                 chk.count("corr:construction-raised:" + type(ex).__name__)
                 continue
+        if len(spy.eigh) < 2 or len(spy.argsort) < 1:
+            # the library no longer reaches eigh / argsort through the attributes numpy.linalg.eigh / numpy.argsort
+            # (e.g. `from numpy.linalg import eigh`): nothing was recorded, the glue cannot be replayed - HOW, not WHAT
+            chk.broke("correspondence", "the spy on numpy.linalg.eigh / numpy.argsort recorded %d / %d calls during gkl_basis "
+                      "(>= 2 / 1 expected): the model's eigh/argsort parameters cannot be tied to the code on %s"
+                      % (len(spy.eigh), len(spy.argsort), desc))
+            break
         chk.case(("corr", ri, nr, npp, nfunc), sample=dict(desc, op="glue") if it < 3 else None)
         # --- contracts of the external kernels, on the instances the library saw
         for t, (m, w, v) in enumerate(spy.eigh):
@@ -241,6 +354,20 @@ def correspondence(chk, KL, n_cases, nr_hi):
             op("C13 masked %s %d %d %s" % (common.f2h(rid), ncp, ncmar, " ".join(common.f2h(x) for x in un.ravel())),
                cmp_floats("pol2car(mask=True)", KL.pol2car(g, pol, mask=True), 0.0, gd))
             chk.count("corr:ncmar=%d" % ncmar)
+            # azimuthal coordinate (clip of the repaired pcgeom) and the order-1 rendering on the table closed in azimuth
+            # (repaired pol2car), at pixels spread over the array, those next to the +x axis (the closing cell) included
+            ax = (numpy.arange(ncp * ncp).reshape(ncp, ncp) % ncp - 0.5 * (ncp - 1)) / (0.5 * (ncp - 2 * ncmar))
+            phi = (npp / (2 * numpy.pi)) * ((numpy.arctan2(ax.T, ax) + 2 * numpy.pi) % (2 * numpy.pi))   # pcgeom's expression
+            op("C13 cp %d %s" % (npp, " ".join(common.f2h(x) for x in phi.ravel())),
+               cmp_floats("pcgeom cp", g["cp"], 0.0, gd))
+            rows = numpy.repeat(numpy.arange(ncp), 3)
+            pix = [(int(r), int(c)) for r, c in zip(rows, [rng.randrange(ncp) for _ in rows])]
+            pix += [(r, ncp - 1 - k) for r in (ncp // 2 - 1, ncp // 2) for k in (0, 1, 2) if ncp - 1 - k > ncp // 2]
+            crs = [g["cr"][r, c] for r, c in pix]
+            cps = [g["cp"][r, c] for r, c in pix]
+            op("C13 render %d %d %d %s" % (nr, npp, len(pix), " ".join(common.f2h(x) for x in crs + cps + list(pol.ravel()))),
+               cmp_floats("pol2car(mask=False) at %d pixels" % len(pix), [un[r, c] for r, c in pix],
+                          1e-12 * numpy.abs(pol).max(), gd))
     ans = common.run_driver(lines, "C13")
     bad = 0
     for line, a, fn in zip(lines, ans, checks):
@@ -255,42 +382,58 @@ def correspondence(chk, KL, n_cases, nr_hi):
 
 
 # --------------------------------------------------------------------------- oracle (the property on the real code)
-def polar_oracle(chk, KL, ri, nr, npp, nppk, nfunc):
-    rep = {"ri": ri, "nr": nr, "npp": npp, "nfunc": nfunc, "call": "gkl_basis(ri, nr, npp, nfunc)"}
+GRAM_TOL = 1e-9        # observed 3e-15 on the clean tree; every mutation considered moves it by >= 1e-3
+DIAG_TOL = 1e-8        # npp = nth: relative to the largest variance; observed <= 3e-15 (10 seeds)
+TOP_TOL = 1e-10        # returned variances vs the oracle-side nfunc largest, relative to the largest; observed <= 2e-14
+PAIR_TOL = 1e-12       # cos/sin partners: variances and radial functions agree to this relative error; observed 0
+# npp != nth (make_kl always: npp = int(2 pi nr)): the double average is taken on another azimuthal grid than the one the
+# kernel was integrated on, the identity holds up to that quadrature difference only.  Observed on the repaired tree, 10 seeds x
+# ~118 configurations: dominant functions (variance >= 1 % of the largest, azimuthal frequency <= 1/8 of both grids) off by
+# <= 0.57 % of their own variance; any function off by <= 0.14 % of the largest variance; off-diagonal <= 5.7e-5 of the largest
+LOOSE_DIAG_OWN = 0.03
+LOOSE_DIAG_ALL = 0.01
+LOOSE_OFF = 1e-3
+QUAD_MAX_POINTS = 25000     # N = nr*npp of the double pupil average
+QUAD_BRUTE_POINTS = 2600    # up to here brute force (N^2 structure-function values), beyond organised by rotational symmetry
+# Cartesian rendering vs the polar function at the pixel's (r, theta): bound on the resampling error, see cart_follows_polar
+REG_CELLS = 0.125      # radial registration allowance, in radial cells (the code's own offset is 1/16 cell)
+CURV_FACTOR = 0.5      # x local second difference of the radial samples (linear interpolation error is 1/8 of it)
+WORST = {}
 
-    def bad(key, what):
-        chk.fail(key, "%s [gkl_basis(ri=%r, nr=%d, npp=%d, nfunc=%d)]" % (what, ri, nr, npp, nfunc), rep)
-    kers = KL.gkl_kernel(ri, nr, KL.gkl_radii(ri, nr))
-    if not numpy.all(numpy.isfinite(kers)):
-        i, j, p = numpy.argwhere(~numpy.isfinite(kers))[0]
-        bad("kernel:not-finite", "gkl_kernel(ri, nr, gkl_radii(ri, nr))[%d, %d, %d] is %r (%d non-finite entries)"
-            % (i, j, p, kers[i, j, p], int((~numpy.isfinite(kers)).sum())))
+
+def _worst(name, v):
+    WORST[name] = max(WORST.get(name, 0.0), float(v))
+
+
+def check_polar_basis(chk, KL, b, ri, nr, npp, nfunc, bad, diag=True):
+    """the polar part of the property on one returned basis `b` (gkl_basis output / make_kl's polar_base)"""
     try:
-        b = _quiet(KL.gkl_basis, ri, nr, npp, nfunc)
         F = numpy.array([KL.gkl_sfi(b, i) for i in range(nfunc)])
     except Exception as ex:
-        bad("construct:gkl_basis:" + type(ex).__name__, "construction raised %s: %s" % (type(ex).__name__, ex))
-        return None
+        bad("construct:gkl_sfi:" + type(ex).__name__, "gkl_sfi raised %s: %s" % (type(ex).__name__, ex))
+        return False
     if not (numpy.all(numpy.isfinite(F)) and numpy.all(numpy.isfinite(b["evals"]))):
         bad("not-finite", "returned functions / variances contain non-finite values")
-        return None
-    ev, oo, rab = numpy.asarray(b["evals"], dtype=float), [int(x) for x in b["ord"]], b["rabas"]
+        return False
+    ev, oo, rab = numpy.asarray(b["evals"], dtype=float), [int(x) for x in b["ord"]], numpy.asarray(b["rabas"], dtype=float)
+    if F.shape != (nfunc, nr, npp) or ev.shape != (nfunc,) or rab.shape != (nr, nfunc) or len(oo) != nfunc:
+        bad("shape", "shapes: functions %s, evals %s, rabas %s" % (F.shape, ev.shape, rab.shape))
+        return False
     tmax = (max(oo) + 1) // 2
-    if F.shape != (nfunc, nr, npp) or ev.shape != (nfunc,):
-        bad("shape", "shapes: functions %s, evals %s" % (F.shape, ev.shape))
-        return None
     if 2 * tmax >= npp:      # beyond the azimuthal Nyquist limit of the polar grid: outside the stated domain
         chk.count("oracle:beyond-azimuthal-resolution")
-        return b
+        return True
     # orthonormal over the pupil
     G = numpy.einsum("iab,jab->ij", F, F) / (nr * npp)
     E = numpy.abs(G - numpy.eye(nfunc))
+    _worst("gram", E.max())
     if not E.max() <= GRAM_TOL:
         i, j = numpy.unravel_index(numpy.argmax(E), E.shape)
         bad("gram:" + ("diagonal" if i == j else "offdiagonal"),
             "polar Gram matrix entry (%d,%d) is %r, expected %d" % (i, j, G[i, j], int(i == j)))
     # piston-free
     mu = F.mean(axis=(1, 2))
+    _worst("mean", numpy.abs(mu).max())
     if not numpy.abs(mu).max() <= GRAM_TOL:
         bad("mean", "function %d has pupil mean %r" % (int(numpy.argmax(numpy.abs(mu))), mu[numpy.argmax(numpy.abs(mu))]))
     # variances: positive, non-increasing, tip/tilt first and equal, cos/sin pairs
@@ -299,8 +442,14 @@ def polar_oracle(chk, KL, ri, nr, npp, nppk, nfunc):
     if numpy.any(numpy.diff(ev) > 0):
         k = int(numpy.argmax(numpy.diff(ev)))
         bad("evals:order", "returned variances increase at %d: %r < %r" % (k, ev[k], ev[k + 1]))
-    if nfunc >= 2 and not (sorted(oo[:2]) == [1, 2] and ev[0] == ev[1] and numpy.array_equal(rab[:, 0], rab[:, 1])):
+
+    def same(i, j):
+        return (abs(ev[i] - ev[j]) <= PAIR_TOL * abs(ev[i])
+                and numpy.abs(rab[:, i] - rab[:, j]).max() <= PAIR_TOL * max(numpy.abs(rab[:, i]).max(), 1e-300))
+    if nfunc >= 2 and not (sorted(oo[:2]) == [1, 2] and same(0, 1)):
         bad("tiptilt", "first two functions are not the equal-variance tip/tilt pair: ord %s evals %s" % (oo[:2], ev[:2]))
+    if nfunc == 1 and oo[0] not in (1, 2):
+        bad("tiptilt", "the single function returned is not tip or tilt: ord %s" % oo[:1])
     i = 0
     while i < nfunc:
         if oo[i] == 0:
@@ -309,47 +458,147 @@ def polar_oracle(chk, KL, ri, nr, npp, nppk, nfunc):
         if i == nfunc - 1:
             break
         t = (oo[i] + 1) // 2
-        if not (sorted((oo[i], oo[i + 1])) == [2 * t - 1, 2 * t] and ev[i] == ev[i + 1]
-                and numpy.array_equal(rab[:, i], rab[:, i + 1])):
+        if not (sorted((oo[i], oo[i + 1])) == [2 * t - 1, 2 * t] and same(i, i + 1)):
             bad("evals:pair", "functions %d,%d are not a cos/sin pair of one radial function: ord %s evals %s"
                 % (i, i + 1, oo[i:i + 2], ev[i:i + 2]))
             break
         i += 2
-    # diagonalises the Kolmogorov covariance: exact identity when the azimuthal grids coincide
-    if npp == 5 * nr and nr <= 24:
-        rad = numpy.asarray(b["radp"], dtype=float)
-        th = numpy.arange(npp) * 2 * numpy.pi / npp
-        X = (rad[:, None] * numpy.cos(th)[None]).ravel()
-        Y = (rad[:, None] * numpy.sin(th)[None]).ravel()
-        dist = numpy.sqrt((X[:, None] - X[None]) ** 2 + (Y[:, None] - Y[None]) ** 2)
-        Dm = KL.stf_kolmogorov(0.5 * dist)
-        Fm = F.reshape(nfunc, -1)
-        Q = -0.5 * (Fm @ Dm @ Fm.T) / float(Fm.shape[1]) ** 2
+    rad = numpy.asarray(b["radp"], dtype=float)
+    # the returned functions are the nfunc of largest variance (orders >= 1 counted twice): against the oracle-side spectrum of
+    # ALL orders below the kernel's Nyquist order - this is what the order loop's stop rule has to guarantee
+    if rad.shape == (nr,) and numpy.all(numpy.isfinite(rad)):
+        top = largest_variances(ref_spectrum(ri, nr, rad), nfunc)
+        dv = numpy.abs(ev - top)
+        _worst("largest", dv.max() / top[0])
+        if not dv.max() <= TOP_TOL * top[0]:
+            k = int(numpy.argmax(dv))
+            bad("evals:largest", "returned variance %d is %r but the %d-th largest variance of the Karhunen-Loeve functions of "
+                "this pupil (oracle-side spectrum, all azimuthal orders, cos/sin counted twice) is %r"
+                % (k, float(ev[k]), k + 1, float(top[k])))
+    else:
+        bad("shape", "radp is not a finite vector of nr radii")
+        return False
+    # diagonalises the Kolmogorov covariance (oracle-side structure function): exact identity when the azimuthal grids coincide
+    if diag and nr * npp <= QUAD_MAX_POINTS:
+        if nr * npp <= QUAD_BRUTE_POINTS:
+            Q = quad_forms(F, rad, npp)
+            if WORST.get("n:selfcheck", 0) < 8:          # oracle self-check: both evaluations of the double sum agree
+                WORST["n:selfcheck"] = WORST.get("n:selfcheck", 0) + 1
+                dself = numpy.abs(Q - quad_forms_rot(F, rad, npp)).max() / max(numpy.abs(Q).max(), 1e-300)
+                if not dself <= 1e-10:
+                    raise RuntimeError("C13 oracle self-check: brute-force and rotation-organised double sums differ by %r" % dself)
+        else:
+            Q = quad_forms_rot(F, rad, npp)
         sc = max(abs(ev).max(), 1e-300)
         dq = numpy.abs(numpy.diag(Q) - ev)
-        if not dq.max() <= DIAG_TOL * sc:
-            k = int(numpy.argmax(dq))
-            bad("diag:diagonal", "-1/2 <K_%d D K_%d> = %r but the returned variance is %r" % (k, k, Q[k, k], ev[k]))
         off = numpy.abs(Q - numpy.diag(numpy.diag(Q)))
-        if not off.max() <= DIAG_TOL * sc:
-            i, j = numpy.unravel_index(numpy.argmax(off), off.shape)
-            bad("diag:offdiagonal", "-1/2 <K_%d D K_%d> = %r, not 0 (largest variance %r)" % (i, j, Q[i, j], sc))
-        chk.count("oracle:diagonalisation")
+        if npp == 5 * nr:
+            _worst("diag:exact", max(dq.max(), off.max()) / sc)
+            if not dq.max() <= DIAG_TOL * sc:
+                k = int(numpy.argmax(dq))
+                bad("diag:diagonal", "-1/2 <K_%d D K_%d> = %r but the returned variance is %r" % (k, k, float(Q[k, k]), float(ev[k])))
+            if not off.max() <= DIAG_TOL * sc:
+                i, j = numpy.unravel_index(numpy.argmax(off), off.shape)
+                bad("diag:offdiagonal", "-1/2 <K_%d D K_%d> = %r, not 0 (largest variance %r)" % (i, j, float(Q[i, j]), float(sc)))
+            chk.count("oracle:diagonalisation:exact")
+        else:
+            m = (numpy.array(oo) + 1) // 2
+            dom = (ev >= 0.01 * sc) & (8 * m <= min(npp, 5 * nr))
+            rel = numpy.where(dom, dq / numpy.maximum(ev, 1e-300), 0.0)
+            _worst("diag:loose-own", rel.max())
+            _worst("diag:loose-all", dq.max() / sc)
+            _worst("diag:loose-off", off.max() / sc)
+            if not rel.max() <= LOOSE_DIAG_OWN:
+                k = int(numpy.argmax(rel))
+                bad("diag:diagonal:loose", "-1/2 <K_%d D K_%d> = %r but the returned variance is %r (off by %.1f %%; npp != 5 nr, "
+                    "quadrature difference allowance %.0f %%)" % (k, k, float(Q[k, k]), float(ev[k]), 100 * rel[k], 100 * LOOSE_DIAG_OWN))
+            elif not dq.max() <= LOOSE_DIAG_ALL * sc:
+                k = int(numpy.argmax(dq))
+                bad("diag:diagonal:loose", "-1/2 <K_%d D K_%d> = %r but the returned variance is %r (difference %.2g of the "
+                    "largest variance %r)" % (k, k, float(Q[k, k]), float(ev[k]), dq[k] / sc, float(sc)))
+            if not off.max() <= LOOSE_OFF * sc:
+                i, j = numpy.unravel_index(numpy.argmax(off), off.shape)
+                bad("diag:offdiagonal:loose", "-1/2 <K_%d D K_%d> = %r, not 0 within %.0e of the largest variance %r"
+                    % (i, j, float(Q[i, j]), LOOSE_OFF, float(sc)))
+            chk.count("oracle:diagonalisation:loose")
+    return True
+
+
+def polar_oracle(chk, KL, ri, nr, npp, nppk, nfunc, after=()):
+    rep = {"ri": ri, "nr": nr, "npp": npp, "nfunc": nfunc, "call": "gkl_basis(ri, nr, npp, nfunc)"}
+    ctx = "gkl_basis(ri=%r, nr=%d, npp=%d, nfunc=%d)" % (ri, nr, npp, nfunc)
+    if after:
+        rep["after_in_same_process"] = list(after)
+        ctx += " after " + "; ".join(after)
+
+    def bad(key, what):
+        chk.fail(key, "%s [%s]" % (what, ctx), rep)
+    kers = KL.gkl_kernel(ri, nr, KL.gkl_radii(ri, nr))
+    if not numpy.all(numpy.isfinite(kers)):
+        i, j, p = numpy.argwhere(~numpy.isfinite(kers))[0]
+        bad("kernel:not-finite", "gkl_kernel(ri, nr, gkl_radii(ri, nr))[%d, %d, %d] is %r (%d non-finite entries)"
+            % (i, j, p, kers[i, j, p], int((~numpy.isfinite(kers)).sum())))
+    try:
+        b = _quiet(KL.gkl_basis, ri, nr, npp, nfunc)
+    except Exception as ex:
+        bad("construct:gkl_basis:" + type(ex).__name__, "construction raised %s: %s" % (type(ex).__name__, ex))
+        return None
+    if not check_polar_basis(chk, KL, b, ri, nr, npp, nfunc, bad):
+        return None
     return b
 
 
-def cart_oracle(chk, KL, nmax, dim, ri, nr):
+def cart_follows_polar(pb, i, ri, nr, npp, cpos, th):
+    """Reference value and resampling-error bound of function i at pixels with radial cell coordinate `cpos` and azimuth `th`.
+
+    The polar function is R_k x az(m theta_j) with the radial samples R_k at the radii the basis reports (cell coordinate
+    s_k = (radp_k^2 - ri^2)/(1 - ri^2) nr) and az = 1 / cos / sin.  Reference: R_lin(c) az(m theta), R_lin the piecewise linear
+    interpolant of (s_k, R_k), held constant beyond the first/last sample, az evaluated exactly.  Bound:
+      |R_lin(c)| (1 - cos(m h/2))     sup error of piecewise linear interpolation of a unit sinusoid of order m on the step
+                                      h = 2 pi/npp (every interpolation order >= 1 stays below it)
+      + REG_CELLS    x the largest |R_k+1 - R_k| over the pixel's radial cell and its two neighbours (radial registration)
+      + CURV_FACTOR  x the largest |second difference| of R at the four nodes around the cell (linear vs smoother interpolants)
+      + distance beyond the first/last sample x the end cell's |difference| (any extrapolation between constant and linear);
+    the three radial terms are multiplied by |az| + (1 - cos(m h/2)), the size of any interpolant of the azimuthal factor."""
+    o = int(pb["ord"][i])
+    m = (o + 1) // 2
+    Rk = numpy.asarray(pb["rabas"], dtype=float)[:, i]
+    s = (numpy.asarray(pb["radp"], dtype=float) ** 2 - ri ** 2) / (1 - ri ** 2) * nr
+    az = numpy.ones_like(th) if o == 0 else (numpy.cos(m * th) if o % 2 == 1 else numpy.sin(m * th))
+    Rl = numpy.interp(cpos, s, Rk)
+    dR = numpy.abs(numpy.diff(Rk))
+    k = numpy.clip(numpy.searchsorted(s, cpos, side="right") - 1, 0, nr - 2)
+    pad = numpy.concatenate([[0.0], dR, [0.0]])
+    dRn = numpy.maximum(numpy.maximum(pad[:-2], pad[1:-1]), pad[2:])            # cells k-1, k, k+1
+    if nr >= 3:
+        d2 = numpy.concatenate([[0.0, 0.0], numpy.abs(numpy.diff(Rk, 2)), [0.0, 0.0]])   # d2[j+1] : node j
+        d2n = numpy.array([d2[j:j + 4].max() for j in range(nr - 1)])           # nodes k-1 .. k+2 of cell k
+    else:
+        d2n = numpy.zeros(nr - 1)
+    amp = max(numpy.abs(Rk).max(), 1e-300)
+    h = 2 * numpy.pi / npp
+    beyond = numpy.maximum(cpos - s[-1], 0.0) * dR[-1] + numpy.maximum(s[0] - cpos, 0.0) * dR[0]
+    eaz = 1 - math.cos(m * h / 2)
+    bound = numpy.abs(Rl) * eaz + (REG_CELLS * dRn[k] + CURV_FACTOR * d2n[k] + beyond) * (numpy.abs(az) + eaz) + 1e-12 * amp
+    return Rl * az, bound, amp
+
+
+def cart_oracle(chk, KL, nmax, dim, ri, nr, after=(), diag=True):
     rep = {"nmax": nmax, "dim": dim, "ri": ri, "nr": nr, "call": "make_kl(nmax, dim, ri=ri, nr=nr, mask=True/False)"}
+    ctx = "make_kl(%d, %d, ri=%r, nr=%d)" % (nmax, dim, ri, nr)
+    if after:
+        rep["after_in_same_process"] = list(after)
+        ctx += " after " + "; ".join(after)
 
     def bad(key, what):
-        chk.fail(key, "%s [make_kl(%d, %d, ri=%r, nr=%d)]" % (what, nmax, dim, ri, nr), rep)
+        chk.fail(key, "%s [%s]" % (what, ctx), rep)
     try:
         kl, var, pup, pb = _quiet(KL.make_kl, nmax, dim, ri=ri, nr=nr, mask=True)
         klu, var2, pup2, pb2 = _quiet(KL.make_kl, nmax, dim, ri=ri, nr=nr, mask=False)
     except Exception as ex:
         bad("construct:make_kl:" + type(ex).__name__, "construction raised %s: %s" % (type(ex).__name__, ex))
         return
-    if kl.shape != (nmax, dim, dim) or pup.shape != (dim, dim) or numpy.shape(var) != (nmax,):
+    if kl.shape != (nmax, dim, dim) or klu.shape != kl.shape or pup.shape != (dim, dim) or numpy.shape(var) != (nmax,):
         bad("shape", "shapes kl %s pupil %s var %s" % (kl.shape, pup.shape, numpy.shape(var)))
         return
     c = (numpy.arange(dim) - (dim - 1) / 2.0) / (dim / 2.0)
@@ -360,6 +609,13 @@ def cart_oracle(chk, KL, nmax, dim, ri, nr):
     if not numpy.array_equal(pup[sure], ind[sure]) or not numpy.all((pup == 0) | (pup == 1)):
         k = numpy.argwhere((pup != ind) & sure)
         bad("pupil", "returned pupil is not the annulus indicator, e.g. at pixel %s" % (k[0].tolist() if len(k) else "?"))
+    # the annulus is centred on the array: its indicator is unchanged by the two flips and the transposition (the pixel
+    # coordinates (i - (dim-1)/2)/(dim/2) are exactly antisymmetric in binary64, so this is exact on the rim as well)
+    for name, q in (("up-down flip", pup[::-1, :]), ("left-right flip", pup[:, ::-1]), ("transposition", pup.T)):
+        if not numpy.array_equal(pup, q):
+            k = numpy.argwhere(pup != q)[0].tolist()
+            bad("pupil:asymmetric", "returned pupil changes under %s, e.g. at pixel %s" % (name, k))
+            break
     if not numpy.array_equal(pup, pup2):
         bad("pupil:mask-dependence", "pupil depends on the mask flag")
     out = pup == 0
@@ -369,56 +625,117 @@ def cart_oracle(chk, KL, nmax, dim, ri, nr):
         bad("mask-consistency", "make_kl(mask=True) differs from make_kl(mask=False)*pupil")
     if not (numpy.array_equal(var, pb["evals"]) and numpy.array_equal(var, var2)):
         bad("variances", "returned variances are not the eigenvalues of the polar basis")
-    # follows the polar function: every inside pixel lies in the range of the polar samples around its (r, theta)
-    npp = pb["np"]
-    fr = numpy.floor((R2 - ri ** 2) / (1 - ri ** 2) * nr).astype(int)
-    fp = numpy.floor((numpy.arctan2(Y, X) % (2 * numpy.pi)) / (2 * numpy.pi) * npp).astype(int)
-    inside = pup > 0
+    # the polar basis make_kl used (npp = int(2 pi nr)) must satisfy the polar part of the property as well
+    npp = int(pb["np"])
+    okb = check_polar_basis(chk, KL, pb, ri, nr, npp, nmax, bad, diag=diag)
+    if not okb or 2 * ((max(int(x) for x in pb["ord"]) + 1) // 2) >= npp:
+        return
+    # follows the polar function at each pixel's (r, theta) to within the resampling error
+    inside = (ind > 0) & (pup > 0)
+    cpos = (R2 - ri ** 2) / (1 - ri ** 2) * nr
+    th = numpy.arctan2(Y, X) % (2 * numpy.pi)
+    last_cell = th > 2 * numpy.pi * (npp - 1) / npp
+    theta_j = numpy.arange(npp) * 2 * numpy.pi / npp
     for i in range(nmax):
+        o = int(pb["ord"][i])
+        m = (o + 1) // 2
+        azj = numpy.ones(npp) if o == 0 else (numpy.cos(m * theta_j) if o % 2 == 1 else numpy.sin(m * theta_j))
         pol = KL.gkl_sfi(pb, i)
-        lo = numpy.full((dim, dim), numpy.inf)
-        hi = -lo
-        for da in (-1, 0, 1, 2):
-            for db in (-1, 0, 1, 2):
-                v = pol[numpy.clip(fr + da, 0, nr - 1), (fp + db) % npp]
-                lo, hi = numpy.minimum(lo, v), numpy.maximum(hi, v)
-        viol = numpy.maximum(lo - klu[i], klu[i] - hi)
-        viol[~inside] = -1
-        if viol.max() > 1e-9:
-            r, cc = numpy.unravel_index(numpy.argmax(viol), viol.shape)
-            bad("cartesian:follows-polar", "function %d at pixel (row %d, col %d) is %r, outside the range [%r, %r] of the polar "
-                "function around that pixel's (r, theta)" % (i, r, cc, klu[i, r, cc], lo[r, cc], hi[r, cc]))
+        if not numpy.abs(pol - numpy.outer(pb["rabas"][:, i], azj)).max() <= 1e-9 * max(numpy.abs(pol).max(), 1e-300):
+            chk.broke("correspondence", "gkl_sfi(%d) is not rabas[:, %d] x (1 | cos | sin)(m theta_j) with m = (ord+1)//2 - the "
+                      "oracle cannot form the reference of the Cartesian rendering [%s]" % (i, i, ctx))
+            return
+        ref, bound, amp = cart_follows_polar(pb, i, ri, nr, npp, cpos, th)
+        ratio = numpy.where(inside, numpy.abs(klu[i] - ref) / bound, 0.0)
+        _worst("cartesian", ratio.max())
+        if ratio.max() > 1.0:
+            r, cc = numpy.unravel_index(numpy.argmax(ratio), ratio.shape)
+            bad("cartesian:follows-polar" + (":azimuth-wrap" if last_cell[r, cc] else ""),
+                "function %d (ord %d) at pixel (row %d, col %d) is %r but the polar function at that pixel's (r, theta) = (%.4f, "
+                "%.4f rad) is %r; resampling-error bound %.3g, amplitude of the function %.3g%s"
+                % (i, o, r, cc, float(klu[i, r, cc]), math.sqrt(R2[r, cc]), th[r, cc], float(ref[r, cc]), bound[r, cc], amp,
+                   " (pixel in the azimuthal cell between the last polar sample and the first)" if last_cell[r, cc] else ""))
             break
 
 
 # inputs on which the pinned tree failed: (ri, nr) whose kernel had NaN entries (rounding made the zero distance
 # negative), and an azimuthal size for which rebin's float-step mgrid produced one sample too many
 CORPUS = [(0.35, 21, 105, 8), (0.2, 31, 155, 8), (0.333482499661436, 5, 25, 8), (0.3, 8, 49, 8), (0.6, 40, 200, 8),
-          (0.9, 35, 175, 8), (0.2, 42, 210, 8), (0.25, 12, 98, 10)]
-CORPUS_CART = [(6, 16, 0.25, 19), (20, 32, 0.6, 40), (6, 16, 0.25, 31), (6, 12, 0.5, 33)]
+          (0.9, 35, 175, 8), (0.2, 42, 210, 8), (0.25, 12, 98, 10),
+          # round 3: a single function, more than 60 functions, nr > 22
+          (0.25, 6, 30, 1), (0.4, 16, 80, 150), (0.3, 30, 150, 40)]
+CORPUS_QUICK = [0, 1, 2, 3, 8, 9]
+# (nmax, dim, ri, nr); odd dim: the pixel grid must stay centred on (dim-1)/2
+CORPUS_CART = [(6, 16, 0.25, 19), (20, 32, 0.6, 40), (8, 21, 0.3, 8), (10, 33, 0.25, 10), (12, 47, 0.5, 9),
+               (6, 16, 0.25, 31), (6, 12, 0.5, 33)]
+CORPUS_CART_QUICK = 5
+# the call of the module's documentation and of the repository's only test
+DOC_CALL = (150, 128, 0.2, 40)
+# one geometry, several constructions in one process (nfunc growing, then make_kl at two sizes): every call is checked -
+# a construction must not depend on what was built before for the same (ri, nr)
+REPEATS = [(0.25, 8, (4, 12, 30), ((12, 16), (20, 21))), (0.5, 6, (2, 9, 20), ((6, 15), (10, 24)))]
+
+
+def repeat_oracle(chk, KL, ri, nr, nfuncs, carts):
+    after = []
+    for nfunc in nfuncs:
+        if stopping_order(KL, ri, nr, nfunc) is None:
+            continue
+        chk.oracle_cases += 1
+        chk.count("oracle:repeat")
+        chk.case(("repeat", ri, nr, nfunc, len(after)))
+        polar_oracle(chk, KL, ri, nr, 5 * nr, "nth", nfunc, after=tuple(after))
+        after.append("gkl_basis(ri=%r, nr=%d, npp=%d, nfunc=%d)" % (ri, nr, 5 * nr, nfunc))
+    for nmax, dim in carts:
+        if stopping_order(KL, ri, nr, nmax) is None:
+            continue
+        chk.oracle_cases += 1
+        chk.count("oracle:repeat")
+        chk.case(("repeat-cart", ri, nr, nmax, dim, len(after)))
+        cart_oracle(chk, KL, nmax, dim, ri, nr, after=tuple(after))
+        after.append("make_kl(%d, %d, ri=%r, nr=%d) twice" % (nmax, dim, ri, nr))
 
 
 def oracle(chk, KL, n_polar, n_cart, nr_hi):
     rng = chk.rng
     quick = chk.tier == "quick"
-    for k, (ri, nr, npp, nfunc) in enumerate(CORPUS[:4] if quick else CORPUS):
+    for k, (ri, nr, npp, nfunc) in enumerate(CORPUS):
+        if quick and k not in CORPUS_QUICK:
+            continue
         chk.oracle_cases += 1
         chk.count("oracle:corpus")
-        chk.case(("corpus", ri, nr, npp), sample={"ri": ri, "nr": nr, "npp": npp, "nfunc": nfunc} if k == 0 else None)
+        chk.case(("corpus", ri, nr, npp, nfunc), sample={"ri": ri, "nr": nr, "npp": npp, "nfunc": nfunc} if k == 0 else None)
         polar_oracle(chk, KL, ri, nr, npp, "corpus", nfunc)
-    for (nmax, dim, ri, nr) in (CORPUS_CART[:2] if quick else CORPUS_CART):
+    for (nmax, dim, ri, nr) in (CORPUS_CART[:CORPUS_CART_QUICK] if quick else CORPUS_CART):
         chk.oracle_cases += 1
         chk.count("oracle:corpus")
+        chk.count("oracle:cart:dim%%2=%d" % (dim % 2))
         chk.case(("corpus-cart", nmax, dim, ri, nr))
         cart_oracle(chk, KL, nmax, dim, ri, nr)
+    chk.oracle_cases += 1
+    chk.count("oracle:documented-call")
+    chk.case(("doc-call",) + DOC_CALL)
+    cart_oracle(chk, KL, *DOC_CALL)
+    reps = list(REPEATS)
+    for _ in range(1 if quick else 20):
+        nr = rng.randint(4, 10)
+        npp = 5 * nr
+        lim = max(3, min(60, nr * npp // 8))
+        nf = sorted(rng.sample(range(1, lim + 1), 3))
+        reps.append((rng.choice([common.dyadic(rng, 1 / 16, 14 / 16, 4), rng.uniform(0.03, 0.9)]), nr, tuple(nf),
+                     ((rng.randint(2, min(24, lim)), rng.randint(8, 40)), (rng.randint(2, min(24, lim)), rng.randint(8, 40)))))
+    for ri, nr, nfuncs, carts in reps:
+        repeat_oracle(chk, KL, ri, nr, nfuncs, carts)
     for it in range(n_polar):
-        ri, nr, npp, nppk, nfunc = gen_config(rng, nr_hi)
+        big = (not quick) and rng.random() < 0.02
+        ri, nr, npp, nppk, nfunc = gen_config(rng, 40 if big else nr_hi)
         if stopping_order(KL, ri, nr, nfunc) is None:
             chk.count("oracle:beyond-resolution-limit")
             continue
         chk.oracle_cases += 1
         chk.count("oracle:nr=%d" % nr)
         chk.count("oracle:npp=" + nppk)
+        chk.count("oracle:nfunc=" + ("1" if nfunc == 1 else "2..60" if nfunc <= 60 else ">60"))
         chk.case(("polar", ri, nr, npp, nfunc), sample={"ri": ri, "nr": nr, "npp": npp, "nfunc": nfunc} if it < 3 else None)
         b = polar_oracle(chk, KL, ri, nr, npp, nppk, nfunc)
         # no state carried from one call to the next, inputs left alone
@@ -439,7 +756,7 @@ def oracle(chk, KL, n_polar, n_cart, nr_hi):
         ri = rng.choice([common.dyadic(rng, 1 / 16, 14 / 16, 4), rng.uniform(0.03, 0.9)])
         dim = rng.randint(8, 40)
         npp = int(2 * math.pi * nr)
-        nmax = rng.randint(2, max(2, min(24, (nr * npp) // 15)))
+        nmax = rng.randint(1 if rng.random() < 0.1 else 2, max(2, min(24, (nr * npp) // 15)))
         if stopping_order(KL, ri, nr, nmax) is None:
             chk.count("oracle:beyond-resolution-limit")
             continue
@@ -447,18 +764,27 @@ def oracle(chk, KL, n_polar, n_cart, nr_hi):
         chk.count("oracle:cart:dim%%2=%d" % (dim % 2))
         chk.case(("cart", nmax, dim, ri, nr), sample={"nmax": nmax, "dim": dim, "ri": ri, "nr": nr} if it < 2 else None)
         cart_oracle(chk, KL, nmax, dim, ri, nr)
+    chk.notes.append("largest observed / allowed on this run: " + ", ".join(
+        "%s %.3g" % (k, v) for k, v in sorted(WORST.items())) + "  (gram, mean: absolute; largest, diag:*: relative; cartesian: "
+        "fraction of the resampling-error bound)")
 
 
 def run(chk):
     from aotools.functions import karhunenLoeve as KL
     quick = chk.tier == "quick"
+    WORST.clear()
+    _limit_blas_threads(2)
     chk.rule = ("correspondence: Lean model at binary64 vs karhunenLoeve.py on the same (ri, nr, npp, nfunc): radii/piston/azimuthal "
                 "tables abs 1e-13, matrices handed to eigh rel 1e-9 of their max (naive DFT vs FFT), glue (order loop, sort, pairing, "
                 "scaling) replayed on the eigenpairs the real eigh returned: nus/nord/ord/npo/evals exact, rabas abs 1e-11, pupil "
-                "and masking exact, cr abs 1e-12*nr; oracle on the real code: polar Gram and means 1e-9, variances positive / "
-                "non-increasing / paired exactly, double-average quadratic form vs variances 1e-8 of the largest (npp = nth), "
-                "pupil = indicator exactly away from the rim, masked zero outside exactly, Cartesian value inside the range of "
-                "the surrounding polar samples; distinct = distinct (ri, nr, npp, nfunc[, dim])")
+                "and masking exact, cr abs 1e-12*nr; oracle on the real code (structure function, kernel and spectrum computed on the "
+                "oracle side): polar Gram and means 1e-9, variances positive / non-increasing / cos-sin partners equal to 1e-12 rel, "
+                "returned variances = the nfunc largest of the oracle-side spectrum of all orders (orders >= 1 twice) 1e-10 rel, "
+                "double-average quadratic form vs variances 1e-8 of the largest for npp = 5 nr, else 3 % of the own variance for "
+                "dominant functions / 1 % of the largest for all / off-diagonal 1e-3 of the largest; pupil = indicator exactly away "
+                "from the rim and flip/transpose-symmetric exactly, masked zero outside exactly, Cartesian value within the "
+                "resampling-error bound of R_lin(r) az(m theta); several constructions for one (ri, nr) in one process each checked; "
+                "distinct = distinct (ri, nr, npp, nfunc[, dim])")
     chk.assumptions = [
         "numpy.linalg.eigh returns orthonormal eigenvectors with ascending eigenvalues of the symmetric matrix it is given "
         "(theorem hypothesis; checked numerically on every instance of the correspondence run)",
@@ -470,10 +796,25 @@ def run(chk):
         "NOT PROVED: every selected eigenvalue is positive - hence the piston entry (flat index nr-1, recorded variance 0) is never "
         "selected, which is the hypothesis `x != nr-1` of returned_basis_diagonalises - and the largest eigenvalue belongs to "
         "order 1 (hypothesis of tip_tilt_first_partial); facts about the Kolmogorov kernel's spectrum; oracle only",
-        "NOT PROVED: the order loop computes enough orders for the nfunc largest eigenvalues (monotone decay of the spectrum with "
-        "azimuthal order; oracle only)",
-        "NOT PROVED: accuracy of the polar->Cartesian resampling by map_coordinates (oracle: value within the range of the "
-        "surrounding polar samples)",
+        "NOT PROVED: the order loop computes enough orders for the nfunc largest eigenvalues: proved is only that the functions "
+        "returned are the largest of the orders computed and that at the stop nfunc computed functions exceed every function of "
+        "the last order (selected_are_largest, stop_rule_count); that no LATER order holds a larger variance (decay of the "
+        "spectrum with azimuthal order) is ASSERTED by the oracle on every case: returned variances = the nfunc largest of an "
+        "oracle-side spectrum of all orders below the kernel's Nyquist order, 1e-10",
+        "THE THEOREM diagonalises (and diagonalises_all, returned_basis_diagonalises) REQUIRES npp = nth = 5 nr. make_kl ALWAYS uses "
+        "npp = int(2 pi nr) != 5 nr: for the documented driver's output the identity is not exact - the double average runs on "
+        "another azimuthal grid than the kernel was integrated on - and is only checked loosely by the oracle (3 % of the own "
+        "variance for dominant functions [variance >= 1 % of the largest, azimuthal frequency <= 1/8 of both grids; observed <= "
+        "0.6 %], 1 % of the largest variance for every function [observed <= 0.14 %], off-diagonal 1e-3 of the largest [observed "
+        "<= 6e-5]); functions of high azimuthal order on thin rings are off by up to 30 % of their own variance there",
+        "the structure function of the theorems is a parameter; that the code's is Kolmogorov's 6.8839 r^(5/3) is the theorem "
+        "stf_is_kolmogorov about the regenerated definition and, independently, the oracle's literal",
+        "NOT PROVED: accuracy of the polar->Cartesian resampling by map_coordinates (oracle: |value - R_lin(r) az(m theta)| within "
+        "a bound made of the linear-interpolation error of the sinusoid, 1/8 radial cell of registration [the code registers "
+        "radial sample k at r^2 = ri^2 + k d although gkl_radii puts it at ri^2 + (k + 1/16) d: accepted as resampling error], "
+        "1/4 of the local second difference, and the extrapolation distance beyond the outermost samples); proved is the "
+        "factorisation of bilinear interpolation of a separable table and the periodic closure of the azimuth "
+        "(bilinear_separable, wrap_closes_azimuth)",
         "Real.sqrt/cos/sin/pi model numpy's up to IEEE rounding",
     ]
     meta = t1check.regenerate(chk)
